@@ -668,6 +668,22 @@ func c19Aac(c *fw.Ctx) {
 					j.bad("seq-header", "MakeAudioDataSeqHeaderWithAsc(%x) = %x err=%v", asc, sh, err)
 					return
 				}
+				// longer configs (explicit SBR/PS signalling, GASpecificConfig extensions, program config
+				// elements): the sequence header carries every byte
+				if (obj+idx+ch)%7 == 0 {
+					for _, extra := range []int{1, 3, 5, 14, 62} {
+						long := append(append([]byte(nil), asc...), c09Fill(extra, uint32(obj*1000+idx*10+ch))...)
+						if extra == 3 {
+							long = append(append([]byte(nil), asc...), 0x56, 0xe5, 0xa0) // sync extension 0x2b7, SBR present
+						}
+						c.Eval(1)
+						sh, err := aac.MakeAudioDataSeqHeaderWithAsc(long)
+						if err != nil || !bytes.Equal(sh, append([]byte{0xAF, 0x00}, long...)) {
+							j.bad("seq-header-long-asc", "MakeAudioDataSeqHeaderWithAsc(%x) = %x err=%v", long, sh, err)
+							return
+						}
+					}
+				}
 				if obj > 4 {
 					continue // ADTS carries object types 1–4 only
 				}
@@ -723,6 +739,9 @@ func c19Sdp(c *fw.Ctx, n int) {
 		case 1:
 			idx := r.Intn(13)
 			ai = sdp.AudioInfo{AudioPt: base.AvPacketPtAac, SamplingFrequency: gen.AacRates[idx], Asc: []byte{byte(2<<3 | idx>>1), byte(idx<<7 | (1+r.Intn(7))<<3)}}
+			if r.Intn(3) == 0 {
+				ai.Asc = append(ai.Asc, [][]byte{{0x56, 0xe5, 0xa0}, {0x56, 0xe5, 0x00}, {0x00}}[r.Intn(3)]...) // explicit SBR signalling / padding
+			}
 			wantA, clock = "MPEG4-GENERIC", gen.AacRates[idx]
 		case 2:
 			ai = sdp.AudioInfo{AudioPt: base.AvPacketPtG711A, SamplingFrequency: 8000}
